@@ -16,17 +16,42 @@ Qed.
 Lemma task_state_eq_dec : forall a b : task_state, {a = b} + {a <> b}.
 Proof. decide equality. Qed.
 
-(* is_ready_to_run: a join is ready as soon as ONE parent is complete, a regular task when ALL are *)
-Lemma ready_spec : forall terminal sts s,
-  is_ready_to_run terminal sts s = true <->
-  (if terminal then exists b, In b sts /\ b = true else forall b, In b sts -> b = true) /\
+Lemma existsb_map_idA : forall (A : Type) (f : A -> bool) l, existsb (fun b => b) (map f l) = existsb f l.
+Proof. intros A f l; induction l as [|x l IH]; cbn; [reflexivity | rewrite IH; reflexivity]. Qed.
+Lemma forallb_map_idA : forall (A : Type) (f : A -> bool) l, forallb (fun b => b) (map f l) = forallb f l.
+Proof. intros A f l; induction l as [|x l IH]; cbn; [reflexivity | rewrite IH; reflexivity]. Qed.
+
+(* is_ready_to_run: a regular task is ready when ALL parents are complete; a join when ONE parent is complete
+   and none is still alive (every parent complete or CANCELLED); and the task is SCHEDULED / PREEMPTED *)
+Lemma ready_spec : forall (A : Type) (complete_of : A -> bool) (state_of : A -> task_state) terminal (ps : list A) s,
+  is_ready_to_run complete_of state_of terminal ps s = true <->
+  (if terminal
+   then (exists p, In p ps /\ complete_of p = true) /\
+        (forall p, In p ps -> complete_of p = true \/ state_of p = TS_CANCELLED)
+   else forall p, In p ps -> complete_of p = true) /\
   (s = TS_SCHEDULED \/ s = TS_PREEMPTED).
 Proof.
-  intros terminal sts s. unfold is_ready_to_run.
+  intros A complete_of state_of terminal ps s. unfold is_ready_to_run.
   rewrite andb_true_iff, orb_true_iff, !task_state_eqb_eq.
-  destruct terminal.
-  - rewrite existsb_exists. tauto.
+  rewrite existsb_map_idA, forallb_map_idA. destruct terminal.
+  - rewrite andb_true_iff, existsb_exists, forallb_forall.
+    assert (G : (forall x, In x ps -> complete_of x || task_state_eqb (state_of x) TS_CANCELLED = true) <->
+                (forall p, In p ps -> complete_of p = true \/ state_of p = TS_CANCELLED)).
+    { split; intros H p Hp; specialize (H p Hp); [apply orb_true_iff in H | apply orb_true_iff];
+        rewrite task_state_eqb_eq in *; exact H. }
+    rewrite G. tauto.
   - rewrite forallb_forall. tauto.
+Qed.
+
+(* a join with a parent that is still alive (neither complete nor cancelled) is NOT ready: it waits for the
+   branch that was taken *)
+Lemma join_waits : forall (A : Type) (complete_of : A -> bool) (state_of : A -> task_state) (ps : list A) s p,
+  In p ps -> complete_of p = false -> state_of p <> TS_CANCELLED ->
+  is_ready_to_run complete_of state_of true ps s = false.
+Proof.
+  intros A complete_of state_of ps s p Hp Hc Hs.
+  destruct (is_ready_to_run complete_of state_of true ps s) eqn:E; [|reflexivity].
+  apply ready_spec in E. destruct E as [[_ H] _]. destruct (H p Hp); congruence.
 Qed.
 
 (* ---------- membership ---------- *)
